@@ -44,7 +44,7 @@ CLAIMS = {
             "as C01"),
     "C18": ("Theorems C18_serialize_form, deserialize_exact, hex digit and even-length characterisation, round_trip. Tie + oracle: serde_json and serde's plain string deserializer on valid/invalid hex, case, prefix and length variants, against an independent reference.",
             "the hex crate (ethereum_serde_utils) is third-party: modelled in Hex.v, tied by this correspondence"),
-    "C19": ("Theorems C19_*: maps/sets encode as the entry list, decode = list decode then collect, collection semantics (ascending, later wins), key order is a strict total order, round trip, fixed point, and decode-by-collection at every nesting depth (dec t = collect_rec t after dec (list_view t), for every type expression). Tie + oracle: maps/sets over 5 key types and 6 value types, shuffled/duplicated entry lists.",
+    "C19": ("Theorems C19_*: maps/sets encode as the entry list, decode = list decode then collect, collection semantics (ascending, later wins), key order is a strict total order, round trip, fixed point, decode-by-collection and encode-as-entry-lists at every nesting depth (dec t = collect_rec t after dec (list_view t); enc t v = enc (list_view t) v), decoded values well typed (collections strictly ascending) and re-encoding a fixed point at every depth. Tie + oracle: maps/sets over 5 key types and 6 value types, shuffled/duplicated entry lists.",
             "BTreeMap/BTreeSet::from_iter and the Rust Ord of key types are modelled (val_cmp) and tied by the correspondence"),
     "C20": ("Theorems C20_never_panics, bitvector_valid, bitlist_valid, bitvector_reachable, bitlist_reachable. Tie + oracle: Unstructured inputs on all 30 generator types; aggregate oracle: every capacity >= 1 generated at least once.",
             "arbitrary::Unstructured::fill_buffer and usize::arbitrary are third-party: modelled, tied by this correspondence"),
